@@ -142,3 +142,38 @@ impl Attrs {
         attrs.write_buf(contents);
     }
 }
+
+#[cfg(vt100_verif)]
+impl Color {
+    pub(crate) fn verif_dump(self, out: &mut String) {
+        use std::fmt::Write as _;
+        match self {
+            Self::Default => out.push('d'),
+            Self::Idx(i) => write!(out, "i{i}").unwrap(),
+            Self::Rgb(r, g, b) => write!(out, "r{r}.{g}.{b}").unwrap(),
+        }
+    }
+}
+
+#[cfg(vt100_verif)]
+impl Attrs {
+    pub(crate) fn verif_dump(&self, out: &mut String) {
+        use std::fmt::Write as _;
+        if *self == Self::default() {
+            out.push('-');
+            return;
+        }
+        self.fgcolor.verif_dump(out);
+        out.push(',');
+        self.bgcolor.verif_dump(out);
+        write!(
+            out,
+            ",{},{},{},{}",
+            self.mode & TEXT_MODE_INTENSITY,
+            u8::from(self.italic()),
+            u8::from(self.underline()),
+            u8::from(self.inverse())
+        )
+        .unwrap();
+    }
+}
